@@ -2,7 +2,13 @@
 is parsed by the library; the object's attributes are read back leaf by leaf."""
 import random
 
+import base64
+import os
+import re
+
 import tlbkit
+import vlib
+from pytoniq_core.boc import Cell
 from pytoniq_core.tlb import account as A, block as B, config as Cf, transaction as T
 from pytoniq_core.tlb import utils as Ut
 
@@ -28,17 +34,17 @@ CLS = {
     'AccountStorage': A.AccountStorage, 'Account': A.Account, 'HashUpdate': Ut.HashUpdate, 'MsgEnvelope': T.MsgEnvelope,
     'BlockInfo': B.BlockInfo, 'ValueFlow': B.ValueFlow, 'ValidatorSet': Cf.ValidatorSet,
     'Transaction': T.Transaction, 'ShardAccount': A.ShardAccount, 'AccountBlock': A.AccountBlock, 'ImportFees': T.ImportFees,
-    'MsgEnvelopeAny': T.MsgEnvelope, 'InMsg': T.InMsg, 'OutMsg': T.OutMsg,
+    'MsgEnvelopeAny': T.MsgEnvelope, 'InMsg': T.InMsg, 'OutMsg': T.OutMsg, 'BlockExtra': B.BlockExtra, 'Block': B.Block,
 }
 
 
 def tlb_cfg(types, emit='TRUE'):
-    return ('INIT Init\nNEXT Next\nCONSTANTS Types = {%s}\n Emit = %s\nINVARIANT Export\nINVARIANT Count\nCHECK_DEADLOCK FALSE\n'
+    return ('INIT Init\nNEXT Next\nCONSTANTS Types = {%s}\n Emit = %s\nINVARIANT Export\nINVARIANT Count\nINVARIANT DecEnc\nCHECK_DEADLOCK FALSE\n'
             % (', '.join('"%s"' % t for t in types), emit))
 
 
 def model_checks(tier):
-    names = sorted(CLS)
+    names = sorted(set(CLS) - {'Block'})        # Block is read in the decode direction only (its state update is not transcribed)
     k = 8
     chunks = [names[i::k] for i in range(k)]
     return [dict(name='tlb_g%d' % i, module='MC_Tlb.tla', gen=True, workers=2, timeout=1500, heap='4g', cfg=tlb_cfg(ch))
@@ -67,6 +73,34 @@ def generate(tier, seed, ctx):
             except Exception as e:
                 rec['err'] = type(e).__name__
             out.append(rec)
+    out += bundled_block(ctx)
+    return out
+
+
+def bundled_block(ctx):
+    """decode direction: the bundled main-net block (and its parts on their own) read by the specification's decoder from the
+    cell tree; the library's parser must report every leaf the decoder lists"""
+    src = open(os.environ.get('VERIF_REPO', '/repo') + '/tests/test_cell.py').read()
+    root = Cell.one_from_boc(base64.b64decode(re.search(r"block_boc = '([^']+)'", src).group(1)))
+    parts = [('Block', root), ('BlockInfo', root.refs[0]), ('ValueFlow', root.refs[1]), ('BlockExtra', root.refs[3])]
+    jobs = [{'id': k + 1, 'type': 'DecodeL', 'nm': nm, 'tree': tlbkit.cell_tree_t(c)} for k, (nm, c) in enumerate(parts)]
+    res = vlib.tlc_map('TlbEncode.tla', jobs, os.path.join(ctx['work'], 'dec'), shards=4)
+    out = []
+    for k, (nm, c) in enumerate(parts):
+        d = res[k + 1]['encs'][0]
+        if not d['ok']:
+            raise vlib.MachineryError('the specification cannot decode the bundled block as ' + nm)
+        rec = {'op': 'tlb', 'type': nm, 'flat': d['flat'], 'tags': ['bundled_block']}
+        try:
+            s = c.begin_parse()
+            obj = CLS[nm].deserialize(s)
+            rec['obs'] = tlbkit.observe(obj, d['flat'], nm)
+            rec['rem'] = {'bits': s.remaining_bits, 'refs': s.remaining_refs}
+        except RecursionError:
+            raise
+        except Exception as e:
+            rec['err'] = type(e).__name__
+        out.append(rec)
     return out
 
 
@@ -91,5 +125,10 @@ def extra_coverage(flat, ctx):
     by = {}
     for r in flat:
         by[r['type']] = by.get(r['type'], 0) + 1
+    def n_obs(r, pred):
+        return sum(1 for o in r.get('obs', []) if pred(o))
+    bb = [r for r in flat if 'bundled_block' in r.get('tags', [])]
     return {'values_by_type': by, 'types_covered': len(by), 'parse_errors': sum(1 for r in flat if 'err' in r),
-            'leaves_compared': sum(len(r['flat']) for r in flat if 'obs' in r)}
+            'leaves_compared': sum(n_obs(r, lambda o: 'skip' not in o) for r in flat),
+            'leaves_not_comparable': sum(n_obs(r, lambda o: 'skip' in o) for r in flat),
+            'bundled_block': {r['type']: {'leaves': len(r['flat']), 'compared': n_obs(r, lambda o: 'skip' not in o)} for r in bb}}
